@@ -3,6 +3,7 @@
 From Coq Require Import ZArith List Bool Ring.
 From Coq Require Import PrimFloat.
 From PV Require Import Model.Base Model.Sched Model.Seq.
+From PV Require Gen.Pure Model.Chan Proofs.PureEq.
 From PV Require Import Proofs.SchedInv Proofs.SeqInv Proofs.PhaseSpec.
 Import ListNotations.
 Open Scope Z_scope.
@@ -86,3 +87,12 @@ Theorem C07_ramsey :
       ropp (rmul a ab) = rmul (rmul h h) (radd (radd (radd r1 r1) u) ub).
 Proof. exact ramsey_amplitude. Qed.
 Print Assumptions C07_ramsey.
+
+(** Tie to the source by translation: the EOM phase drift is EQUAL to the
+    function regenerated from the current source
+    (_PhaseDriftParams.calc_phase_drift). *)
+Theorem C07_source_calc_phase_drift :
+  forall (d : drift) (tf : Z),
+    Gen.Pure.gen_calc_phase_drift (dr_rate d) (dr_ti d) tf = calc_phase_drift d tf.
+Proof. exact PureEq.calc_phase_drift_eq. Qed.
+Print Assumptions C07_source_calc_phase_drift.
